@@ -73,11 +73,31 @@ def classify(chk, s, r, an, findings):
                 sig = sig or f3_signature(s, r, pair[1])
         elif kind == "ATwoAtOnce":
             sig = f3_signature(s, r, an[1])
+        elif kind == "AOrder":
+            # once a stale completion has split one key over two workers, start order across them is arbitrary
+            k = an[1]
+            for j in (an[2], an[3]):
+                w = next((e[2] for evs in r["impl"] for e in evs
+                          if isinstance(e, tuple) and e[0] == "EStart" and e[1] == j), None)
+                if w is not None:
+                    sig = sig or f3_signature(s, r, w, k)
+            if not sig:
+                for pair in r["stale"]:
+                    if job_key(s, pair[2]) == k:
+                        sig = sig or f3_signature(s, r, pair[1], k)
         if sig:
             return "known", ("F3", "a Finished(w,k) processed after the death of the sending incarnation while the replacement runs "
                                    "key k is taken for the replacement's job: the factory believes worker w idle while it runs a job "
                                    "(active-worker count too low) and a further job of key k can start on another worker concurrently; "
                                    "e.g. corpus/C14/f3_stale_completion_breaks_affinity.scn")
+    if kind == "AOrder" and "F8" in findings and s["router"] == "kp" and s["n"] == 0:
+        # the overtaken job (an[2]: dispatched earlier, started later) was dispatched while the pool was empty
+        first_grow = next((i for i, op in enumerate(s["ops"]) if op[0] in ("r", "sw", "rel") and int(op[1]) > 0), len(s["ops"]))
+        d_op = next((i for i, op in enumerate(s["ops"]) if op[0] == "d" and int(op[1]) == an[2]), None)
+        if d_op is not None and d_op < first_grow:
+            return "known", ("F8", "key-persistent routing started with an empty pool: jobs backlogged in the factory queue are pulled "
+                                   "one per completion after the pool grows, and later jobs of the same key, routed straight to the "
+                                   "worker's queue, overtake them; e.g. corpus/C14/f8_empty_pool_backlog_overtaken.scn")
     return "violation", show_term(an)
 
 
